@@ -63,6 +63,16 @@ claim("C11", "other",
       "Non-interference proof from censuses: budget transported unmodified option->CreateEvaluator (iff non-zero)->grammar.MaxExpressions->parser.maxExprCnt, zero mapped to MaxUint64 after options are applied; the step counter has one writer (+1 in parseExpr's entry block) and is read only by that increment and one ordered comparison with the budget whose exceeded edge panics with errMaxExprCnt and which dominates the whole dispatch; all engine methods are entered only through parseExpr. Hence a limited run is a prefix of the unlimited run: exact threshold N, monotone, at most n+1 steps; panic recovered into the error (C10 rules imported).",
       "§4 C11", "field read/write census + dominance + who-may-call census + symbolic transport check")
 
+claim("C18", "other",
+      "Field-flow per option field (enumerated from the options type, so a new field without a pipeline is itself a violation): each constructor = one unconditional store of its own parameter into its own field, reading no option field (distinct options commute, last wins; getOpts applies in slice order over the documented neutral defaults); CreateEvaluator copies tag name/hook/unknown value from getOpts(its options) into Evaluator fields with no other writer; every Evaluate re-issues exactly those (unknown value iff configured); every call between functions taking ...Option forwards the caller's options; consumption at both pointerstructure lookups / the ErrNotFound branch / the parser budget (imported from C05, C11). Does not decide hook behaviour.",
+      "§4 C18", "field-flow analysis + symbolic reconstruction of literals/option lists + variadic-forwarding census")
+claim("C07", "other",
+      "Evaluation is spelling-blind (no read of Selector.Type; selector text only in error messages; consumers pass Selector.Path); every grammar action that can produce a path part returns the matched text, the matched text minus exactly the one-byte separator starting its production, a passed-through label or the unquoted bracket literal - no normalising call; the JSON-pointer action hands '/'+join(segments,'/') to pointerstructure.Parse, replaces Path by the parsed Parts and returns its error; all selector labels reference one rule. Does not decide pointerstructure's unescaping/matching.",
+      "§4 C07", "typed-AST analysis of part-producing grammar actions (offset rule) + field-read/call census in package bexpr")
+claim("C08", "other",
+      "Who-may-call census over everything reachable from Evaluate/Execute: no struct-field reflection, whole-value comparison or interface equality (rule validated on every run against a positive-control package); the only entries into pointerstructure are Pointer.Get/String and Parse; both Get sites carry the evaluator's tag name and hook, which travel creation -> Evaluator -> every Evaluate -> every sub-evaluation (C05/C18 rules imported); no comparator for Struct. Does not decide pointerstructure.getStruct's own filtering.",
+      "§4 C08", "who-may-call census with positive control + single-gateway census + imported gateway-config/pipeline rules")
+
 def main():
     checks, nas = [], []
     for id in sorted(P):
